@@ -15,6 +15,7 @@ import Restful.Lemmas.JsrMatch
 import Restful.Lemmas.JsrSlash
 import Restful.Spec.Params
 import Restful.Lemmas.StateShape
+import Restful.Lemmas.RouteUnique
 namespace Restful
 namespace Props
 variable (E : ReEnv)
@@ -148,6 +149,71 @@ theorem C04_jsr (cfg : Config) (hk : cfg.router = .jsr) (hwf : cfg.wfTemplates =
     have := c04_clauses E .jsr ts htwf hshape hnd segs hslash hadm
     simpa only [Bool.and_eq_true, decide_eq_true_eq, List.all_eq_true, beq_iff_eq] using this
 
+/-! ### the witness of the predicate is the route that ran
+
+`Spec.c04Holds` names the route by its two ids.  On a table whose ids identify (`Spec.idsDistinct`,
+reported by the driver inside `WF`) exactly one declaration carries them: the predicate is its
+clause evaluated at THAT declaration's template, and for the model's outcome that declaration is
+the route object the router returned (`RouteRan`), whose parameters the path processor extracted
+(`paramsOf`).  Without the hypothesis a namesake with another template can satisfy it
+(`C04_ids_witness`). -/
+
+/-- both routers in one statement -/
+theorem C04_holds (cfg : Config) (hwf : cfg.wfTemplates = true) (req : Req) :
+    Spec.c04Holds E cfg req (route E cfg req) = true := by
+  cases hk : cfg.router with
+  | curly => exact C04_curly E cfg hk hwf req
+  | jsr => exact C04_jsr E cfg hk hwf req
+
+/-- the predicate, evaluated on an observation `.selected s r ps`, is its clause (`Spec.c04At`: names,
+    values, substitution — against the template of one declaration) evaluated at THE declaration
+    the ids stand for; false when there is none -/
+theorem C04_predicate_at (cfg : Config) (hids : Spec.idsDistinct cfg = true) (req : Req) (s r : Nat) (ps : Params) :
+    Spec.c04Holds E cfg req (.selected s r ps) =
+      (match Spec.routeOfIds cfg s r with
+       | some (svc, rt) => Spec.c04At E cfg req ps svc rt
+       | none => false) := by
+  rw [Spec.c04Holds_selected, Spec.anyIds_eq hids]
+  cases Spec.routeOfIds cfg s r with
+  | none => rfl
+  | some p => rfl
+
+/-- … in particular no OTHER declaration can satisfy the predicate in the place of the one whose
+    function was observed to run -/
+theorem C04_predicate_unique (cfg : Config) (hids : Spec.idsDistinct cfg = true) (req : Req)
+    (svc : Service) (hsvc : svc ∈ cfg.services) (rt : Route) (hrt : rt ∈ svc.built) (ps : Params) :
+    Spec.c04Holds E cfg req (.selected svc.id rt.id ps) = Spec.c04At E cfg req ps svc rt := by
+  rw [Spec.c04Holds_selected, Spec.anyIds_of_mem hids _ hsvc hrt]
+
+/-- **C04 with a unique witness** (both routers): when the model selects `(s, r)` with parameters
+    `ps`, exactly one declaration has these ids, it is the object the router returned, `ps` is what
+    the path processor extracts for it, and against ITS template the parameters are exactly the
+    declared names, each bound to the text at its position, and substitution gives the admitted
+    segments of the URL back -/
+theorem C04_holds_unique (cfg : Config) (hwf : cfg.wfTemplates = true) (hids : Spec.idsDistinct cfg = true)
+    (req : Req) (s r : Nat) (ps : Params) (h : route E cfg req = .selected s r ps) :
+    ∃ svc ∈ cfg.services, ∃ rt ∈ svc.built, RouteRan E cfg req svc rt ∧ svc.id = s ∧ rt.id = r ∧
+      (∀ svc' ∈ cfg.services, svc'.id = s → svc' = svc) ∧
+      (∀ svc' ∈ cfg.services, ∀ rt' ∈ svc'.built, svc'.id = s → rt'.id = r → rt' = rt) ∧
+      paramsOf E cfg req svc rt = some ps ∧
+      ∃ ts segs, Spec.templateOf cfg.router rt = some ts ∧ Spec.admittedSegments E cfg.router ts req.path = some segs ∧
+        (ps.map (·.1)).Perm (varNames ts) ∧
+        (∀ kv ∈ Spec.expectedParams ts segs, Spec.lookup ps kv.1 = some kv.2) ∧
+        Spec.substitute ps ts = some segs := by
+  obtain ⟨svc, hsvc, rt, hrt, hran, hs, hr, hps, hof, hu1, hu2⟩ := route_selected_unique E hids h
+  refine ⟨svc, hsvc, rt, hrt, hran, hs, hr, hu1, hu2, hps, ?_⟩
+  have hp := C04_holds E cfg hwf req
+  rw [h, C04_predicate_at E cfg hids, hof] at hp
+  simp only [Spec.c04At] at hp
+  split at hp
+  · rename_i ts hts
+    split at hp
+    · rename_i segs hsegs
+      simp only [Bool.and_eq_true, decide_eq_true_eq, List.all_eq_true, beq_iff_eq] at hp
+      exact ⟨ts, segs, hts, hsegs, hp.1.1, hp.1.2, hp.2⟩
+    · cases hp
+  · cases hp
+
 /-- non-vacuity: regex variable, literal, tail wildcard under RouterJSR311 -/
 example :
     let cfg : Config := { router := .jsr, services := [{ id := 0, root := "/users".toList, routes :=
@@ -214,6 +280,19 @@ example :
   decide
 example : Spec.c04Holds E1 cfgJ reqJ (route E1 cfgJ reqJ) = true := C04_jsr E1 cfgJ (by decide) (by decide) reqJ
 
+/-- `C04_holds_unique`, `C04_predicate_at` on these instances (ids identify, templates read, a route
+    function runs); the observation "route 2 ran with the parameters of route 1" is judged against
+    the template of route 2 and fails -/
+example : Spec.idsDistinct cfgC = true ∧ Spec.idsDistinct cfgJ = true := by decide
+example := C04_holds_unique E1 cfgC (by decide) (by decide) reqC 0 1
+  [("org".toList, "acme".toList), ("id".toList, "42".toList), ("file".toList, "report".toList)] (by decide)
+example := C04_holds_unique E1 cfgJ (by decide) (by decide) reqJ 0 1
+  [("org".toList, "acme".toList), ("id".toList, "42".toList)] (by decide)
+example : Spec.c04Holds E1 cfgC reqC (.selected 0 2
+    [("org".toList, "acme".toList), ("id".toList, "42".toList), ("file".toList, "report".toList)]) = false := by
+  rw [C04_predicate_at E1 cfgC (by decide)]
+  decide
+
 /-- `Spec.c04Holds` is not trivially true: with the right route it is falsified by a wrong value,
     a value that kept its suffix, a value that kept the verb, a missing name, an extra name, two
     values swapped, a tail wildcard bound to its first segment only; the order of the bindings does
@@ -254,10 +333,29 @@ example := admittedSegments_facts E1 .curly ts1 reqC.path (tokenize reqC.path) (
 example := admittedSegments_facts E1 .jsr
   [⟨.lit "orgs".toList, none⟩, ⟨.var "org".toList, none⟩] "/orgs/acme/".toList ["orgs".toList, "acme".toList] (by decide)
 
+/-- two routes of one WebService share id 1: `/{a}` and `/{b}` -/
+def cfgDup : Config := { router := .curly, services :=
+  [ { id := 0, root := "/w".toList, routes := [ rd 1 "GET" "/{a}", rd 1 "GET" "/{b}" ] } ] }
+
 end C04Example
+
+/-- without `idsDistinct` the predicate can be satisfied by a namesake: the first declaration with
+    ids (0, 1) is `/w/{a}` and it is its function that runs for `GET /w/x` (parameter `a`); the
+    observation "function 1 of service 0 ran with `b = x`" — parameters that route cannot produce —
+    satisfies the predicate all the same, through the second declaration with id 1 -/
+theorem C04_ids_witness :
+    C04Example.cfgDup.wfTemplates = true ∧ Spec.idsDistinct C04Example.cfgDup = false ∧
+    (Spec.routeOfIds C04Example.cfgDup 0 1).map (·.2.path) = some "/w/{a}".toList ∧
+    Spec.c04Holds C04Example.E1 C04Example.cfgDup (C04Example.get "/w/x") (.selected 0 1 [("b".toList, "x".toList)]) = true ∧
+    (Spec.routeOfIds C04Example.cfgDup 0 1).map (fun p =>
+      Spec.c04At C04Example.E1 C04Example.cfgDup (C04Example.get "/w/x") [("b".toList, "x".toList)] p.1 p.2) = some false := by
+  decide
 
 /-! The frame condition (Lemmas/StateShape.lean): the code has exactly the state this property's model
     accounts for — no further package-level variable, struct type or field; constants as modelled. -/
+-- also: Restful.route_selected_ran
+-- also: Restful.route_selected_unique
+-- also: Restful.Spec.anyIds_eq
 -- also: Restful.StateShape.globals_shape
 -- also: Restful.StateShape.consts_shape
 -- also: Restful.StateShape.routing_shape
